@@ -83,8 +83,12 @@ def centring(ctx, col, geo: Geo):
         g = repo.get_def(q)
         env = {"rmax": S(1), "steps": ("N",), "self": Obj("Sholl"), "self.rmax": S(1), "self.step": S(1)}
         f2 = Frame(geo, g, env)
+        n1 = len(geo.notes)
         t = f2.run()
         verdict, why = geosinks.accept(S(1), t)
+        if geo.notes[n1:] and verdict != "bad":
+            dd, node, tt = geo.notes[n1]
+            verdict, why = "bad", f"{tt[1]} at {dd.loc(node)}"
         if verdict == "ok":
             col.ok(R, q, g.loc(), "sampling radii are lengths derived from the extent", show(t), stmt="radii")
         elif verdict == "bad":
